@@ -416,6 +416,8 @@ def parse_resp(line):
 def canon_brush(resp, ctxname):
     """Harness response -> comparable dict + list of parent changes (the property on brush)."""
     d = parse_resp(resp)
+    if resp.strip() == "TIMEOUT":
+        return None, ["the parent shell did not come back from the subshell context in time (it hangs)"]
     if "st" not in d:
         return None, ["harness: " + resp[:200]]
     out = {"st": d["st"], "sub": unesc(d.get("sub", "%")), "par": unesc(d.get("par", "%")),
@@ -533,6 +535,10 @@ def gen_cases(ctx):
             sub = [t for t in sub if not is_world(t)]
         if c == "pl" and sub and sub[-1].startswith("xi:") and (lastpipe_on(par) or len(sub) == 1):
             sub = sub[:-1] + ["fa"]          # `exit` as the parent's own last stage would end the parent: not a subshell
+        if c == "pl" and len(sub) >= 2 and sub[-1].startswith("fd:") and lastpipe_on(par):
+            # brush: `exec` inside `… | { exec N>f; }` also keeps the stage's pipe as the shell's stdin for good
+            # (exec persists the redirections it inherits, not only its own) — the parent's own doing, not a subshell's
+            sub = sub[:-1] + ["tu"]
         if c in ("stages", "pl"):
             # builtin stages run as concurrent tasks: two writers of the same process-wide value race
             seen, keep = set(), []
@@ -568,7 +574,9 @@ def run_inproc(ctx, root):
         if bc is None:
             if nviol < 20:
                 nviol += 1
-                ctx.violation("harness could not run the case: " + "; ".join(changes), case, kind="correspondence")
+                hang = any("hangs" in x for x in changes)
+                ctx.violation(("" if hang else "harness could not run the case: ") + "; ".join(changes), case,
+                              kind="property" if hang else "correspondence")
             continue
         if c == "pl" and sub and sub[-1].startswith("fn:") and (lastpipe_on(par) or len(sub) == 1):
             # the parent redefining a function (even with the same body) changes its recorded source position
@@ -768,6 +776,22 @@ def e2e_one(job):
             except OSError:
                 return ("nodump", None, None)
             return ("ok", b, a)
+        if mode == "lp":
+            # pipeline under lastpipe vs the last command alone: A = `s1 | … | sk`, B = `sk`
+            stages = list(muts)
+            pre = E2E_SETUP + "shopt -s lastpipe\n"
+            post = 'DUMP "$@" >%s/after 2>&1\n' % tdir
+            ra = e2e_run(which, root, pre + " | ".join(stages[:-1] + ["{ %s; } >/dev/null 2>&1" % stages[-1]]) + "\n" + post, tdir)
+            if ra["timeout"]:
+                return ("timeout", None, None)
+            try:
+                a = canon_dump(open(os.path.join(tdir, "after"), errors="replace").read(), tdir)
+                os.unlink(os.path.join(tdir, "after"))
+                e2e_run(which, root, pre + "{ %s; } >/dev/null 2>&1\n" % stages[-1] + post, tdir)
+                b = canon_dump(open(os.path.join(tdir, "after"), errors="replace").read(), tdir)
+            except OSError:
+                return ("nodump", None, None)
+            return ("ok", b, a)
         # concurrent: muts = (sub, parent)
         sub, par = muts
         r1 = e2e_run(which, root, e2e_script(tdir, "bg", sub, conc=par), tdir)
@@ -831,6 +855,27 @@ def end_to_end(ctx, root):
         sub = [rng.choice(E2E_MUTS) for _ in range(rng.randint(1, 5))]
         par = [rng.choice(safe_par) for _ in range(rng.randint(1, 4))]
         jobs.append((root, "brush", "bg", (sub, par), "conc"))
+    # lastpipe: pipelines of 2-4 stages, a mutator in each position; the parent afterwards must be
+    # "parent + the last command alone" (non-final stages isolated, last command's effects kept), as in bash
+    lp_last = [m for m in safe_par if not m.startswith("exec")]
+    k = 0
+    for n in (2, 3, 4):
+        for pos in range(n):
+            for i, m in enumerate(E2E_MUTS):
+                k += 1
+                if ctx.quick and k % 3 != ctx.seed % 3:
+                    continue
+                if pos == n - 1:
+                    if m not in lp_last:
+                        continue
+                    st = [":"] * (n - 1) + [m]
+                else:
+                    st = [":"] * pos + [m] + [":"] * (n - 2 - pos) + [lp_last[(i + pos) % len(lp_last)]]
+                jobs.append((root, "brush", "lastpipe", st, "lp"))
+    for _ in range(ctx.size(60, 600)):
+        n = rng.randint(2, 4)
+        st = [rng.choice(E2E_MUTS) for _ in range(n - 1)] + [rng.choice(lp_last)]
+        jobs.append((root, "brush", "lastpipe", st, "lp"))
     # the oracle of the method: bash must show no difference on the same scripts (sample)
     njobs = len(jobs)
     ojobs = [(r, "bash", c, m, md) for (r, _, c, m, md) in jobs[::ctx.size(4, 6)]]
@@ -838,8 +883,9 @@ def end_to_end(ctx, root):
     nviol = 0
     for job, (st, b, a) in zip(jobs + ojobs, res):
         _, which, c, muts, mode = job
-        flat = list(muts[0]) if mode == "conc" else list(muts)
-        case = {"mode": "e2e-" + mode, "ctx": c, "muts": muts if mode == "plain" else {"sub": muts[0], "parent": muts[1]}}
+        flat = list(muts[0]) if mode == "conc" else (list(muts[:-1]) if mode == "lp" else list(muts))
+        case = {"mode": "e2e-" + mode, "ctx": c,
+                "muts": {"sub": muts[0], "parent": muts[1]} if mode == "conc" else list(muts)}
         if which == "bash":
             if st != "ok" or b != a:
                 ctx.oracle_mismatch += 1
@@ -866,6 +912,8 @@ def end_to_end(ctx, root):
             delta = dump_delta(b, a)
             cl = e2e_classify(delta, flat, c)
             what = ("parent state differs after a subshell" if mode == "plain" else
+                    "under lastpipe the parent after `s1 | … | sk` differs from the parent after `sk` alone "
+                    "(a non-final stage leaked, or the last command's effects were lost)" if mode == "lp" else
                     "parent state after concurrent background activity differs from the parent's own activity alone")
             if cl:
                 for clause in sorted(cl):
@@ -901,14 +949,17 @@ def replay(ctx, rp):
             differs = bc is None or mc is None or any(bc[k] != mc[k] for k in ("st", "sub", "par", "cv", "w0", "w1", "diff"))
             print("brush == model:", not differs)
             return 1 if (changes or differs) else 0
-        mode = "plain" if case.get("mode") == "e2e-plain" else "conc"
-        muts = case["muts"] if mode == "plain" else (case["muts"]["sub"], case["muts"]["parent"])
+        mode = {"e2e-plain": "plain", "e2e-lp": "lp"}.get(case.get("mode"), "conc")
+        muts = case["muts"] if mode in ("plain", "lp") else (case["muts"]["sub"], case["muts"]["parent"])
         rc = 0
         for which in ("brush", "bash"):
             tdir = "/tmp/T"
             print("---- script (%s):" % which)
             if mode == "plain":
                 print(e2e_script("$T", case["ctx"], muts))
+            elif mode == "lp":
+                print("<setup>; shopt -s lastpipe\nA: %s\nB: %s\n(dump after A must equal dump after B)"
+                      % (" | ".join(muts[:-1] + ["{ %s; }" % muts[-1]]), "{ %s; }" % muts[-1]))
             else:
                 print(e2e_script("$T", "bg", muts[0], conc=muts[1]))
             st, b, a = e2e_one((root, which, case["ctx"], muts, mode))
